@@ -12,7 +12,7 @@ Expression forms (tuples, structurally comparable):
   ('param', i)                       i-th local of the body (1-based), i <= argc
   ('upvar', name, idx)               captured variable of a closure body
   ('const', ty, text, intvalue|None)
-  ('fnitem', path, full, resolved|None)
+  ('fnitem', path, full, resolved|None, generic argument texts of the (resolved) item|None)
   ('call', path, full, args, site)   site = (fn_id, block)
   ('field', base, name|idx, variant|None)
   ('deref', e)   ('ref', e, is_mut)
@@ -37,6 +37,7 @@ class Path:
 
     def __init__(self, conds, events, ret, end, blocks, env=None, fieldenv=None):
         self.conds = conds      # [(expr, value, block)]  value may be ('not', [values]) for otherwise
+        # events also carry ("cond", expr, value) markers: where in the sequence of effects each condition was evaluated
         self.events = events    # [('call', expr) | ('write', place_expr, value_expr, block) | ('assert', msg, cond, expected, ops, block)]
         self.ret = ret          # Expr of _0 at return, or None
         self.end = end          # 'return' | 'unreachable' | 'diverge' | 'loop:<bb>'
@@ -151,7 +152,9 @@ class Walker:
                     return pe
             if "fn" in o:
                 res = o.get("res")
-                return ("fnitem", o["fn"], o["full"], res["def"] if res else None)
+                ta = (res or {}).get("targs") if res else o.get("targs")
+                ta = tuple(a.get("s") if isinstance(a, dict) else None for a in ta) if ta is not None else None
+                return ("fnitem", o["fn"], o["full"], res["def"] if res else None, ta)
             if "closure" in o:
                 return ("agg", "closure", o["closure"], ())
             v = o.get("v")
@@ -312,7 +315,8 @@ class Walker:
                     if outs is not None:
                         for o in outs:
                             c2 = conds + [(c[0], c[1], bi) for c in o.conds]
-                            ev2 = list(events) + list(o.events)
+                            marked = {(e[1], e[2]) for e in o.events if e[0] == "cond"}
+                            ev2 = list(events) + [("cond", c[0], c[1]) for c in o.conds if (c[0], c[1]) not in marked] + list(o.events)
                             k2 = dict(known)
                             k2.update(o.known)
                             if o.end != "return" or o.value is None:
@@ -341,29 +345,31 @@ class Walker:
                             if gmap:
                                 q = subst_generics_path(q, gmap)      # callee's own parameter names -> the call's arguments
                             q2 = subst_path(q, mapping, bi, site=(fn.id, bi))
-                            if self.canon:
-                                from .canon import simplify_path
-                                q2 = simplify_path(q2, known)
-                                if q2 is None:
+                            # a function value the caller supplied and the callee calls: one path per path of that body
+                            for q2 in expand_deferred(q2, self.facts, self.canon, self.inline_all, self.depth):
+                                if self.canon:
+                                    from .canon import simplify_path
+                                    q2 = simplify_path(q2, known, self.facts.adts)
+                                    if q2 is None:
+                                        continue
+                                inst = None
+                                if self.inline_all and clo_map is None:
+                                    # instantiate the callee's generic parameters with the call's arguments where the mapping is
+                                    # known (a direct call of the inlined function itself); otherwise remember the instantiation
+                                    if gmap is None:
+                                        from .canonsum import concrete_instantiation
+                                        inst = concrete_instantiation(t.get("full"), inl)
+                                ev2 = list(events) + [("inlined", inl, args, bi, inst)] + q2.events
+                                c2 = conds + q2.conds
+                                if q2.end != "return":
+                                    self._finish(c2, ev2, None, q2.end, blocks, env, fenv)
                                     continue
-                            inst = None
-                            if self.inline_all and clo_map is None:
-                                # instantiate the callee's generic parameters with the call's arguments where the mapping is
-                                # known (a direct call of the inlined function itself); otherwise remember the instantiation
-                                if gmap is None:
-                                    from .canonsum import concrete_instantiation
-                                    inst = concrete_instantiation(t.get("full"), inl)
-                            ev2 = list(events) + [("inlined", inl, args, bi, inst)] + q2.events
-                            c2 = conds + q2.conds
-                            if q2.end != "return":
-                                self._finish(c2, ev2, None, q2.end, blocks, env, fenv)
-                                continue
-                            env2, fenv2 = dict(env), dict(fenv)
-                            self.assign(t["dest"], q2.ret if q2.ret is not None else ("unknown", "ret"), env2, fenv2, ev2, bi)
-                            if t["target"] is None:
-                                self._finish(c2, ev2, None, "diverge", blocks, env2, fenv2)
-                            else:
-                                self._walk(t["target"], env2, fenv2, c2, ev2, dict(known), blocks, onpath)
+                                env2, fenv2 = dict(env), dict(fenv)
+                                self.assign(t["dest"], q2.ret if q2.ret is not None else ("unknown", "ret"), env2, fenv2, ev2, bi)
+                                if t["target"] is None:
+                                    self._finish(c2, ev2, None, "diverge", blocks, env2, fenv2)
+                                else:
+                                    self._walk(t["target"], env2, fenv2, c2, ev2, dict(known), blocks, onpath)
                         return
                 events.append(("call", ce))
                 self.assign(t["dest"], ce, env, fenv, events, bi)
@@ -413,7 +419,7 @@ class Walker:
                 for av, at in targets:
                     k2 = dict(known)
                     k2[d] = ("eq", av)
-                    self._walk(at, dict(env), dict(fenv), conds + [(d, av, bi)], list(events), k2, blocks, onpath)
+                    self._walk(at, dict(env), dict(fenv), conds + [(d, av, bi)], list(events) + [("cond", d, av)], k2, blocks, onpath)
                 # otherwise
                 ov = frozenset(vals) | excluded
                 rest = self.remaining_variants(b, t, ov) if self.canon else None
@@ -425,11 +431,11 @@ class Walker:
                     if only is not None:
                         # canonical mode: "not any of the other variants" of a known enum is "is the remaining one"
                         k2[d] = ("eq", only)
-                        self._walk(t["otherwise"], dict(env), dict(fenv), conds + [(d, only, bi)], list(events), k2, blocks, onpath)
+                        self._walk(t["otherwise"], dict(env), dict(fenv), conds + [(d, only, bi)], list(events) + [("cond", d, only)], k2, blocks, onpath)
                     else:
                         k2[d] = ("ne", ov)
                         self._walk(t["otherwise"], dict(env), dict(fenv), conds + [(d, ("not", tuple(sorted(ov))), bi)],
-                                   list(events), k2, blocks, onpath)
+                                   list(events) + [("cond", d, ("not", tuple(sorted(ov))))], k2, blocks, onpath)
                 return
             # other terminators (resume etc.)
             self._finish(conds, events, None, "diverge", blocks, env, fenv)
@@ -454,10 +460,17 @@ class Walker:
         F = self.facts
         g = F.fns.get(inl) if F is not None else None
         res = t.get("res") or {}
-        if g is None or t.get("fn") != inl or (res and res.get("def") not in (None, inl)):
+        if g is None:
             return None
         names = g.j.get("generics")
-        targs = t.get("targs")
+        if res.get("def") == inl and res.get("targs") is not None:
+            # a trait method call resolved to this impl item: the resolved instance's arguments (impl parameters, then the
+            # method's own) say what the body's parameter names stand for here
+            targs = res["targs"]
+        elif t.get("fn") != inl or (res and res.get("def") not in (None, inl)):
+            return None
+        else:
+            targs = t.get("targs")
         if names is None or targs is None or len(names) != len(targs):
             return None
         m = {}
@@ -762,7 +775,7 @@ def resite(e, site, memo):
     if k in memo:
         return memo[k]
     if e[0] == "call":
-        r = ("call", e[1], e[2], tuple(resite(a, site, memo) for a in e[3]), (site[0], site[1]) + tuple(e[4]))
+        r = ("call", e[1], e[2], tuple(resite(a, site, memo) for a in e[3]), tuple(site) + tuple(e[4]))
     elif e[0] in ("param", "const", "upvar", "cparam", "fnitem", "unknown"):
         r = e
     else:
@@ -787,10 +800,99 @@ def subst_path(p, mapping, at_block=None, site=None):
             ev.append(("assert", e[1], subst_params(e[2], mapping, memo), e[3], tuple(subst_params(o, mapping, memo) for o in e[4]), at_block if at_block is not None else e[5]))
         elif e[0] == "inlined":
             ev.append(("inlined", e[1], tuple(subst_params(a, mapping, memo) for a in e[2]), at_block if at_block is not None else e[3]) + tuple(e[4:]))
+        elif e[0] == "cond":
+            ev.append(("cond", subst_params(e[1], mapping, memo), e[2]))
         else:
             ev.append(e)
     return Path([(subst_params(c[0], mapping, memo), c[1], at_block if at_block is not None else c[2]) for c in p.conds], ev,
                 subst_params(p.ret, mapping, memo) if p.ret is not None else None, p.end, p.blocks)
+
+
+DEFERRED_CALLS = ("std::ops::FnOnce::call_once", "std::ops::FnMut::call_mut", "std::ops::Fn::call")
+
+
+def replace_expr(x, old, new, memo):
+    """x with every occurrence of the expression `old` replaced by `new`"""
+    if not isinstance(x, tuple) or not x:
+        return x
+    k = id(x)
+    if k in memo:
+        return memo[k]
+    if x == old:
+        r = new
+    elif x[0] in ("param", "const", "upvar", "cparam", "fnitem", "unknown"):
+        r = x
+    else:
+        r = tuple(replace_expr(y, old, new, memo) if isinstance(y, tuple) else y for y in x)
+    memo[k] = r
+    return r
+
+
+def expand_deferred(p, facts, canon=False, inline_all=False, depth=0):
+    """A helper that takes a function value (`fn helper(x, f: impl FnOnce(A) -> B) { .. f(a) .. }`) calls it through
+    FnOnce::call_once / FnMut::call_mut / Fn::call on its parameter.  Once the helper is seen through and the parameter is
+    replaced by what the caller passed - a closure of the workspace or a function item - that call has a known body:
+    splice the body's paths in (closure, workspace function) or turn it into the direct call (function item).
+    Returns the list of resulting paths ([p] when there is nothing to expand)."""
+    if facts is None or depth > 6:
+        return [p]
+    for idx, e in enumerate(p.events):
+        if e[0] != "call" or e[1][1] not in DEFERRED_CALLS or len(e[1][3]) != 2:
+            continue
+        call = e[1]
+        f = strip_refs(call[3][0])
+        tup = call[3][1]
+        if not (isinstance(tup, tuple) and tup[:2] == ("agg", "tuple")) or not isinstance(f, tuple):
+            continue
+        args = tuple(tup[3])
+        if f[0] == "fnitem":
+            fid = f[3] or f[1]
+            g = facts.fns.get(fid)
+            inl = g is not None and not g.is_closure and (facts.is_new_fn(fid) or (inline_all and fid not in getattr(facts, "noinline", ())))
+            if not inl:
+                direct = ("call", f[1], f[2], args, call[4])
+                memo = {}
+                ev = [tuple(replace_expr(x, call, direct, memo) if isinstance(x, tuple) else x for x in y) for y in p.events]
+                q = Path([(replace_expr(c[0], call, direct, memo), c[1], c[2]) for c in p.conds], ev,
+                         replace_expr(p.ret, call, direct, memo) if p.ret is not None else None, p.end, p.blocks, p.env, p.fieldenv)
+                return expand_deferred(q, facts, canon, inline_all, depth + 1)
+            qs = facts.inline_paths(fid, depth, canon=canon, inline_all=inline_all)
+            mapping = {("param", i + 1): a for i, a in enumerate(args)}
+            body_id = fid
+        elif f[0] == "agg" and f[1] == "closure" and f[2] in facts.fns:
+            cf = facts.fns[f[2]]
+            qs = facts.inline_paths(cf.id, depth, canon=canon, inline_all=inline_all)
+            mapping = {}
+            for i, cap in enumerate(cf.captures):
+                if i < len(f[3]):
+                    mapping[("upvar", cap["var"], i)] = f[3][i]
+            for i, a in enumerate(args):
+                mapping[("param", i + 2)] = a
+            body_id = cf.id
+        else:
+            continue
+        if qs is None:
+            continue
+        out = []
+        blk = call[4][1] if len(call[4]) > 1 else None
+        for q in qs:
+            q2 = subst_path(q, mapping, blk, site=call[4])
+            if q2.end == "return" and q2.ret is not None:
+                memo = {}
+                rest = [tuple(replace_expr(x, call, q2.ret, memo) if isinstance(x, tuple) else x for x in y) for y in p.events[idx + 1:]]
+                ev = list(p.events[:idx]) + [("inlined", body_id, args, blk, None)] + list(q2.events) + rest
+                r = Path([(replace_expr(c[0], call, q2.ret, memo), c[1], c[2]) for c in p.conds] + list(q2.conds), ev,
+                         replace_expr(p.ret, call, q2.ret, memo) if p.ret is not None else None, p.end, p.blocks, p.env, p.fieldenv)
+            else:
+                # the body does not return: what the caller would have done afterwards does not happen
+                seen = {(x[1], x[2]) for x in p.events[:idx] if x[0] == "cond"}
+                marked = {(x[1], x[2]) for x in p.events if x[0] == "cond"}
+                keep = [c for c in p.conds if (c[0], c[1]) in seen or (c[0], c[1]) not in marked]
+                r = Path(keep + list(q2.conds), list(p.events[:idx]) + [("inlined", body_id, args, blk, None)] + list(q2.events), None,
+                         q2.end if q2.end != "return" else "diverge", p.blocks, p.env, p.fieldenv)
+            out.extend(expand_deferred(r, facts, canon, inline_all, depth + 1))
+        return out
+    return [p]
 
 
 def subst_generics(e, gmap, rx, memo):
@@ -807,7 +909,7 @@ def subst_generics(e, gmap, rx, memo):
     elif t == "const":
         r = ("const", sub(e[1]), sub(e[2]), e[3])
     elif t == "fnitem":
-        r = ("fnitem", e[1], sub(e[2]), e[3])
+        r = ("fnitem", e[1], sub(e[2]), e[3]) + ((tuple(sub(x) for x in e[4]) if e[4] is not None else None,) if len(e) > 4 else ())
     elif t == "cast":
         r = ("cast", e[1], subst_generics(e[2], gmap, rx, memo), sub(e[3])) + tuple(sub(x) for x in e[4:])
     elif t in ("param", "upvar", "cparam", "unknown"):
